@@ -451,4 +451,22 @@ theorem src_recv_size_eq_model (J : Int) (cfg : Cfg) (st : BufferedSocket.St Int
           · simp [finishMethod, outcome, Blk.seq, Blk.assign, Blk.skip, Blk.ret, k1, k6, k7, hrs, he, join_snoc]
         · simp [scriptAfter, k4]
 
+/-- non-vacuity: the hypotheses are met by concrete calls, evaluated on the GENERATED definition: `recv_size(3)` on
+    `rbuf = b"\x01"` and a network delivering `02 03 04`: returns `01 02 03`, keeps `04` -/
+example : (BufferedSocket.recv_size (mnet 100) 10 ⟨[1], [], 10, some 5, 4⟩ 3 none ⟨[.chunk [2, 3, 4], .deadline], false⟩)
+    = (.ok [1, 2, 3], ⟨[4], [], 10, some 5, 4⟩, ⟨[.deadline], true⟩) := by rfl
+/-- the deadline passes after the first chunk: `Timeout`, the bytes read so far are kept in `rbuf` -/
+example : (BufferedSocket.recv_size (mnet 100) 10 ⟨[], [], 10, some 5, 4⟩ 3 none ⟨[.chunk [2], .deadline, .chunk [3, 4]], false⟩)
+    = (.error .timeout, ⟨[2], [], 10, some 5, 4⟩, ⟨[.deadline, .chunk [3, 4]], true⟩) := by rfl
+/-- another OSError of the socket passes through unchanged, after the same buffer restoration -/
+example : (BufferedSocket.recv_size (mnet 100) 10 ⟨[1], [], 10, none, 4⟩ 3 (some none) ⟨[.osError 7, .chunk [3, 4]], false⟩)
+    = (.error (.osError 7), ⟨[1], [], 10, none, 4⟩, ⟨[.chunk [3, 4]], false⟩) := by rfl
+/-- … and the theorem applies to the first of them -/
+example : ∃ w', BufferedSocket.recv_size (mnet 100) 10 ⟨[1], [], 10, some 5, 4⟩ ((3 : Nat) : Int) none ⟨[.chunk [2, 3, 4], .deadline], false⟩
+      = (outcome (callerFault [.chunk [2, 3, 4], .deadline]) (recvSize ⟨4, 10⟩ 3 ⟨[1], er [.chunk [2, 3, 4], .deadline]⟩).1,
+         { (⟨[1], [], 10, some 5, 4⟩ : BufferedSocket.St Int) with rbuf := (recvSize ⟨4, 10⟩ 3 ⟨[1], er [.chunk [2, 3, 4], .deadline]⟩).2.rbuf }, w') ∧
+      er (scriptAfter (recvSize ⟨4, 10⟩ 3 ⟨[1], er [.chunk [2, 3, 4], .deadline]⟩).1 w')
+        = (recvSize ⟨4, 10⟩ 3 ⟨[1], er [.chunk [2, 3, 4], .deadline]⟩).2.script :=
+  src_recv_size_eq_model 100 ⟨4, 10⟩ _ _ 3 none 10 rfl (by simp [orDefault, TOk]) rfl (by decide) (by decide)
+
 end C12
